@@ -1101,6 +1101,11 @@ func (repo *Repository) Save(ctx context.Context) error {
 	repo.Lock()
 	defer repo.Unlock()
 
+	// The main branch files and the load process assume the longest chain is in the first branch.
+	if err := repo.consolidate(ctx); err != nil {
+		return errors.Wrap(err, "consolidate")
+	}
+
 	if err := repo.saveMainBranch(ctx); err != nil {
 		return errors.Wrap(err, "main branch")
 	}
